@@ -1,5 +1,5 @@
 /- L0 facts about MoneyFlowIndex::reset (split from Lemmas/MoneyFlowIndex.lean so that a change to one method only invalidates the facts about that method) -/
-import TaRs.Lemmas.MoneyFlowIndex
+import TaRs.Lemmas.Core.MoneyFlowIndex
 set_option linter.unusedSectionVars false
 namespace TaRs.Gen.MoneyFlowIndex
 open TaRs TaRs.Rs
